@@ -33,4 +33,9 @@ func runC02(c *core.Ctx) {
 	h.entrySkipAndKeep("C02.5b skip-and-keep")
 	c.Clause("C02.6 a new configuration is appended only when the previous one is committed and an own-term entry is committed")
 	h.configChangeGates("C02.6 config-gates")
+	c.Clause("C02.7 what the up-to-date check compares after a restart is the last entry or the snapshot label: the latest snapshot's term is loaded with its index, before storage derives lastLogTerm from it")
+	h.snapshotOrder("C02.7 snapshot-order")
+	h.onlyWriters("C02.7b who-may-write", "raft:snapshots.term", "(*snapshotSink).done", "openSnapshots")
+	c.Clause("C02.8 the leader's own copy of an entry is flushed before the leader counts the entry committed")
+	h.leaderFlushBeforeAdvance("C02.8 leader-flush")
 }
